@@ -11,10 +11,12 @@ CLAIM = dict(
          "decode_wiring interprets it into provenance terms (which import / which instantiation / which export of which "
          "instance / which embedded component every argument, alias, export and name-section entry designates) and this "
          "must equal wiring_spec computed from the composition graph alone (Graph.v model replaying the same API "
-         "history), up to the numbering of instances. Coq theorems: decode_scoped (a decodable log has no dangling or "
-         "ill-sorted index), and wiring_correct for a model of the structural encoder (every topological emission order, "
-         "every behaviour of the type encoder). The model encoder is tied to the code on every run: replaying the real "
-         "type-encoder items it must reproduce the real item log exactly.",
+         "history), up to the numbering of instances. Coq theorems: decode_scoped / structural_indices_in_scope (a decodable "
+         "log has no dangling or ill-sorted index), wiring_correct and each_package_once for a model of the structural "
+         "encoder (every topological emission order, every behaviour of the type encoder; name section included), and two "
+         "_refuted witnesses showing the side conditions are needed (both are findings of the real code). The model encoder "
+         "is tied to the code on every run: replaying the real type-encoder items it must reproduce the real item log and "
+         "name section exactly.",
     design_ref="DESIGN.md §5 C02, Appendix A.3",
     note="Trusted: Coq kernel, extraction, OCaml driver, Rust harness incl. the payload-level section reader "
          "(wasmparser Parser, not the validator). TypeEncoder is a parameter of the model (its items are replayed from "
